@@ -277,6 +277,17 @@ def container_member(rng, sch, lower_classes):
     return ("dc", rng.choice(lower_classes))
 
 
+_UNION_ORDER = {}
+
+
+def canon_union(members):
+    """typing caches parametrised generics under an order-insensitive equality of Union arguments: once
+    Tuple[Union[A, B], ...] exists in the process, Tuple[Union[B, A], ...] evaluates to the SAME object (args in the first
+    order).  The schema text and the Coq term must therefore use one member order per member set, process wide."""
+    key = frozenset(repr(strip_wrappers(m)) for m in members)
+    return _UNION_ORDER.setdefault(key, tuple(members))
+
+
 def gen_union_containers(rng, sch, lower_classes):
     """unions with container members (the decode side tells members apart by trying them in order; scalars by
     exact type): 1-2 containers + 0-2 scalars (+ None = Optional-of-union), as Union or as TypeVar constraints"""
@@ -297,10 +308,12 @@ def gen_union_containers(rng, sch, lower_classes):
     if rng.random() < 0.2 and ("atom", "none") not in members:
         sch.tvars.append(tuple(members))
         return ("union", tuple(members), "tvar", len(sch.tvars) - 1)
-    return ("union", tuple(members))
+    if len({repr(strip_wrappers(m)) for m in members}) != len(members):
+        return ("union", tuple(members))
+    return ("union", canon_union(members))
 
 
-def gen_union(rng, sch, depth, lower_classes):
+def gen_union0(rng, sch, depth, lower_classes):
     """unions whose members are told apart by the runtime class / element class of the value"""
     q = rng.random()
     if q < 0.35:
@@ -316,6 +329,11 @@ def gen_union(rng, sch, depth, lower_classes):
     a = ("map", "dict", ("atom", "str"), ("leaf", "date"))
     b = ("map", "dict", ("atom", "str"), ("atom", "int"))
     return ("union", (a, b) if rng.random() < 0.5 else (b, a))
+
+
+def gen_union(rng, sch, depth, lower_classes):
+    u = gen_union0(rng, sch, depth, lower_classes)
+    return ("union", canon_union(u[1]))
 
 
 def gen_nocopy(rng):
@@ -1517,11 +1535,11 @@ def union_probe_fields():
              ("map", "dict", ("atom", "str"), ("any",))]
     fields, tvars = [], []
     for c in conts:
-        fields.append(("union", (("atom", "int"), c)))                                                 # field
-        fields.append(("seq", "list", ("union", (("atom", "str"), c))))                                # list item
-        fields.append(("map", "dict", ("atom", "str"), ("union", (("atom", "str"), ("atom", "float"), c))))   # dict value
-        fields.append(("tup", (("union", (c, ("atom", "int"))), ("atom", "str"))))                     # tuple item
-        fields.append(("union", (("atom", "int"), c, ("atom", "none"))))                               # Optional of union
+        fields.append(("union", canon_union((("atom", "int"), c))))                                    # field
+        fields.append(("seq", "list", ("union", canon_union((("atom", "str"), c)))))                   # list item
+        fields.append(("map", "dict", ("atom", "str"), ("union", canon_union((("atom", "str"), ("atom", "float"), c)))))   # dict value
+        fields.append(("tup", (("union", canon_union((c, ("atom", "int")))), ("atom", "str"))))        # tuple item
+        fields.append(("union", canon_union((("atom", "int"), c, ("atom", "none")))))                  # Optional of union
         tvars.append((("atom", "str"), c))
         fields.append(("union", tvars[-1], "tvar", len(tvars) - 1))                                    # TypeVar constraints
     return fields, tvars
@@ -2073,7 +2091,7 @@ def run(ctx: vlib.Ctx):
             drop_module(c.mod)
 
 
-THEOREMS = ["C18_labels_arg_or_supply", "C18_two_calls_disjoint", "C18_decode_two_calls_disjoint", "C18_wrapper_transparent", "C18_share", "C18_share_unionfree", "C18_share_union_refuted",
+THEOREMS = ["C18_fresh_distinct", "C18_decode_fresh_distinct", "C18_labels_arg_or_supply", "C18_two_calls_disjoint", "C18_decode_two_calls_disjoint", "C18_wrapper_transparent", "C18_share", "C18_share_unionfree", "C18_share_union_refuted",
             "C18_decode_dialect_independent", "C18_decode_fresh", "C18_default_fresh", "C18_decode_all_fresh", "C18_decode_union_fresh", "C18_no_mutation",
             "C18_decode_no_mutation", "C18_share_partial", "C18_share_full_refuted"]
 
